@@ -459,3 +459,202 @@ def interpret(func, accessors):
     except Return as r:
         return r.v
     return None
+
+
+# ---------------------------------------------------------------------------------------------
+# Additions for C12.7-ray-consistency (additive: nothing above changes behaviour).
+#   * polynomial calculus helpers: substitution, derivative, coefficients in one symbol, degree,
+#     reduction modulo a relation  lead^2 -> rhs  (normal form for one relation such as |d|^2 = 1);
+#   * Quot: the value of a division by a non-monomial (planes: distance = num / den);
+#   * FieldInterp: members of `this` are opaque symbols (scalars) or vectors of symbols
+#     (Array<double, N>), objects built by a constructor can be "called" through a
+#     "call:<ctor>" hook, division by a sum yields a Quot instead of leaving the vocabulary;
+#   * fork_paths: run a body once per truth assignment of its symbolic comparisons.
+# ---------------------------------------------------------------------------------------------
+def poly_subs(p, mapping):
+    """p with every symbol s in `mapping` replaced by the polynomial mapping[s]."""
+    p = as_poly(p)
+    out = Poly()
+    for mono, c in p.t.items():
+        term = Poly.const(c)
+        for s, pw in mono:
+            if s in mapping:
+                if pw < 0:
+                    raise OutOfVocabulary("substitution into a negative power of " + s)
+                base = as_poly(mapping[s])
+                for _ in range(pw):
+                    term = term * base
+            else:
+                term = term * Poly({((s, pw),): Fraction(1)})
+        out = out + term
+    return out
+
+
+def poly_diff(p, sym):
+    p = as_poly(p)
+    out = {}
+    for mono, c in p.t.items():
+        d = dict(mono)
+        pw = d.get(sym, 0)
+        if pw == 0:
+            continue
+        d[sym] = pw - 1
+        k = tuple(sorted((s_, p_) for s_, p_ in d.items() if p_ != 0))
+        out[k] = out.get(k, 0) + c * pw
+    return Poly(out)
+
+
+def poly_coeffs(p, sym):
+    """{power: coefficient polynomial} of p seen as a polynomial in `sym`."""
+    p = as_poly(p)
+    out = {}
+    for mono, c in p.t.items():
+        d = dict(mono)
+        pw = d.pop(sym, 0)
+        k = tuple(sorted(d.items()))
+        out.setdefault(pw, {})
+        out[pw][k] = out[pw].get(k, 0) + c
+    return {pw: Poly(t) for pw, t in out.items()}
+
+
+def poly_degree(p, syms):
+    """Total degree of p in the given symbols (0 for the zero polynomial)."""
+    p = as_poly(p)
+    deg = 0
+    for mono in p.t:
+        deg = max(deg, sum(pw for s, pw in mono if s in syms))
+    return deg
+
+
+def poly_symbols(p):
+    return set(s for mono in as_poly(p).t for s, _pw in mono)
+
+
+def poly_reduce(p, lead, rhs):
+    """Normal form of p modulo the single relation lead^2 = rhs (rhs free of `lead`): every
+    power lead^(2k+r) becomes rhs^k * lead^r.  Two polynomials are congruent modulo the relation
+    iff their normal forms are equal (the relation is monic in lead^2)."""
+    p = as_poly(p)
+    rhs = as_poly(rhs)
+    if lead in poly_symbols(rhs):
+        raise OutOfVocabulary("relation is not a rewrite rule for " + lead)
+    out = Poly()
+    for mono, c in p.t.items():
+        d = dict(mono)
+        pw = d.pop(lead, 0)
+        if pw < 0:
+            raise OutOfVocabulary("negative power of " + lead)
+        term = Poly({tuple(sorted(d.items())): c})
+        if pw % 2:
+            term = term * Poly.sym(lead)
+        for _ in range(pw // 2):
+            term = term * rhs
+        out = out + term
+    return out
+
+
+class Quot(object):
+    """num / den for a denominator that is not a single monomial."""
+
+    def __init__(self, num, den):
+        self.num, self.den = as_poly(num), as_poly(den)
+
+    def __repr__(self):
+        return "(%r) / (%r)" % (self.num, self.den)
+
+
+class FieldInterp(Interp):
+    """Interp + data members of `this` as symbols.  `fields` collects the symbols created:
+    field name -> Poly (scalar member) or list of Poly (Array<double, N> member)."""
+
+    SCALARS = ("double", "float", "real_type", "celeritas::real_type")
+
+    def __init__(self, func, accessors, fields=None):
+        Interp.__init__(self, func, accessors)
+        self.fields = fields if fields is not None else {}
+
+    def field(self, n):
+        import re
+        name = n["name"]
+        if name in self.fields:
+            v = self.fields[name]
+            return list(v) if isinstance(v, list) else v
+        ty = n.get("ty", "").replace("const ", "").replace("celeritas::", "").strip()
+        if ty in ("double", "float", "real_type"):
+            v = Poly.sym(name)
+        else:
+            ty = {"Real3": "Array<double, 3>"}.get(ty, ty)
+            m = re.match(r"^Array<(double|float), (\d+)>$", ty)
+            if not m:
+                raise OutOfVocabulary("data member %s of type %s" % (name, n.get("ty")))
+            v = [Poly.sym("%s[%d]" % (name, i)) for i in range(int(m.group(2)))]
+        self.fields[name] = v
+        return list(v) if isinstance(v, list) else v
+
+    def ev(self, n):
+        if n is not None:
+            k = n["k"]
+            if k == "MemberExpr" and "cval" not in n and n["c"]:
+                base = strip(n["c"][0], also=TRANSPARENT_EXTRA)
+                if base is not None and base["k"] == "CXXThisExpr":
+                    self.tick()
+                    return self.field(n)
+            if k == "CXXOperatorCallExpr" and n.get("oop") == "()":
+                fn = self.ev(n["c"][1])
+                if isinstance(fn, tuple) and fn and fn[0] == "construct" and ("call:" + fn[1]) in self.acc:
+                    return self.acc["call:" + fn[1]](fn[2], [self.ev(c) for c in n["c"][2:]], n)
+        return Interp.ev(self, n)
+
+    def lval(self, n):
+        s = strip(n, also=TRANSPARENT_EXTRA)
+        if s is not None and s["k"] == "MemberExpr":
+            raise OutOfVocabulary("write to a data member: " + show(s))
+        return Interp.lval(self, n)
+
+    def arith(self, op, a, b, n):
+        if op == "/" and not isinstance(a, list) and not isinstance(b, list) \
+                and not (isinstance(a, int) and isinstance(b, int)) \
+                and isinstance(b, Poly) and len(b.t) > 1:
+            if isinstance(a, Quot):
+                raise OutOfVocabulary("nested quotient " + show(n))
+            return Quot(as_poly(a), b)
+        if isinstance(a, Quot) or isinstance(b, Quot):
+            if op in ("<", ">", "<=", ">=", "==", "!="):
+                hook = self.acc.get("assume")
+                if hook is not None:
+                    r = hook(op, a, b, n)
+                    if r is not None:
+                        return r
+            raise OutOfVocabulary("arithmetic on a quotient: " + show(n))
+        return Interp.arith(self, op, a, b, n)
+
+
+def fork_paths(make_interp, body, max_paths=64):
+    """Run `body` once per truth assignment of the comparisons between symbolic values that the
+    run meets.  make_interp(hook) -> interpreter whose accessor table routes "assume" to `hook`.
+    Yields (decisions, value): decisions = [(taken, op, lhs, rhs, loc)], value = returned value."""
+    out = []
+    stack = [[]]
+    while stack:
+        prefix = stack.pop()
+        taken = []
+
+        def hook(op, a, b, n, prefix=prefix, taken=taken):
+            i = len(taken)
+            if i < len(prefix):
+                d = prefix[i]
+            else:
+                d = False
+                stack.append([t[0] for t in taken] + [True])
+            taken.append((d, op, a, b, n.get("loc", "")))
+            return d
+        it = make_interp(hook)
+        try:
+            it.run(body)
+            val = None
+        except Return as r:
+            val = r.v
+        out.append((taken, val))
+        if len(out) > max_paths:
+            raise OutOfVocabulary("more than %d paths" % max_paths)
+    return out
